@@ -423,7 +423,7 @@ func genCrash(r *rand.Rand) crashInput {
 		switch x := r.Intn(4); {
 		case x == 0:
 			// a design document replaced by a different one (the old one must go and the new one appear together)
-			perm := r.Perm(len(mapSources))
+			perm := r.Perm(numMaps)
 			cn := pick(r, []string{"_default._default", "s1.c1"})
 			if cn == "s1.c1" {
 				in.Ops = append(in.Ops, Step{Kind: "create", Coll: cn, Clock: kin.Ops[len(kin.Ops)-1].Clock + 1})
